@@ -213,6 +213,7 @@ struct World {
     nix::Property prop_at(int sec, int slot);
     std::string pick_name(Rng &r, int sel);
     std::string pick_type(int sel);
+    std::string resolve_name(const std::string &s, const std::string &container_path);
     // -- op dispatch; returns 0 ok, 1 threw, 2 skipped
     int exec(const Op &op);
     int exec_session(const Op &op);
@@ -244,6 +245,7 @@ nix::DataType dtype_by_index(int i);      // 12 array element types
 int dtype_count();
 size_t dtype_size(nix::DataType dt);
 bool wellformed_uuid(const std::string &s);
+std::string long_name(int len);
 
 } // namespace sim
 #endif
